@@ -4,6 +4,7 @@
 #include "soplex.h"
 #include "common.hpp"
 #include <fstream>
+#include <sstream>
 #include <map>
 
 using namespace soplex;
@@ -332,6 +333,68 @@ int main(int argc, char** argv)
          catch(const std::exception& e)
          {
             printf("EXACT %s status=EXCEPTION\n", id.c_str());
+         }
+      }
+      else if(t[0] == "GATE")
+      {
+         // GATE <id> k=v ... x=<dyadics> y=<dyadics> d=<dyadics>: solve (so that a basis exists and the LP may be persistently
+         // scaled), overwrite the stored solution vectors and call the four violation functions of the verification gate
+         try
+         {
+            SP s;
+            quiet(s);
+            std::string xs, ys, ds;
+
+            for(size_t k = 2; k < t.size(); k++)
+            {
+               if(t[k].compare(0, 2, "x=") == 0) xs = t[k].substr(2);
+               else if(t[k].compare(0, 2, "y=") == 0) ys = t[k].substr(2);
+               else if(t[k].compare(0, 2, "d=") == 0) ds = t[k].substr(2);
+               else setParam(s, t[k]);
+            }
+
+            load(s, L);
+            s.optimize();
+            int n = s.numCols(), m = s.numRows();
+            auto fill = [](VectorBase<double>& v, const std::string& txt, int dim)
+            {
+               v.reDim(dim);
+               std::stringstream ss(txt);
+               std::string item;
+               int k = 0;
+
+               while(std::getline(ss, item, ',') && k < dim)
+                  if(!item.empty())
+                     v[k++] = vf::undy(item);
+
+               for(; k < dim; k++) v[k] = 0.0;
+            };
+            fill(s._solReal._primal, xs, n);
+            fill(s._solReal._dual, ys, m);
+            fill(s._solReal._redCost, ds, n);
+            s._solReal._slacks.reDim(m);
+            s._hasSolReal = true;
+            s._solReal._isPrimalFeasible = true;
+            s._solReal._isDualFeasible = true;
+            double a1 = -1, b1 = -1, a2 = -1, b2 = -1, a3 = -1, b3 = -1, a4 = -1, b4 = -1;
+            bool r1 = s.getBoundViolation(a1, b1), r2 = s.getRowViolation(a2, b2), r3 = s.getDualViolation(a3, b3),
+                 r4 = s.getRedCostViolation(a4, b4);
+            printf("GATE %s scaled=%d hasBasis=%d ret=%d%d%d%d bv=%s,%s rv=%s,%s dv=%s,%s cv=%s,%s rst=", t[1].c_str(),
+                   s._isRealLPScaled ? 1 : 0, s.hasBasis() ? 1 : 0, r1, r2, r3, r4, dy(a1).c_str(), dy(b1).c_str(), dy(a2).c_str(),
+                   dy(b2).c_str(), dy(a3).c_str(), dy(b3).c_str(), dy(a4).c_str(), dy(b4).c_str());
+
+            for(int i = 0; i < m; i++) printf("%s", basisName(s.basisRowStatus(i)));
+
+            printf(", cst=");
+
+            for(int j = 0; j < n; j++) printf("%s", basisName(s.basisColStatus(j)));
+
+            printf(",\n");
+            fflush(stdout);
+         }
+         catch(const std::exception& e)
+         {
+            printf("GATE %s status=EXCEPTION what=%s\n", t[1].c_str(), vf::hex(e.what()).c_str());
          }
       }
       else if(t[0] == "HIST")
